@@ -77,8 +77,9 @@ Theorem C04_umount_all : forall c w e um, plain_env e = true -> wf_table (ks_tab
 Proof. exact C04_umount_all_proof. Qed.
 Print Assumptions C04_umount_all.
 
-(* every command *)
-Theorem C04_model_partial : forall cfg w e cmd um, plain_env e = true -> C04_hyp cfg w cmd = true ->
+(* every command, every environment (for a pretend / faulty environment the predicate is true by
+   definition) *)
+Theorem C04_model_partial : forall cfg w e cmd um, C04_hyp cfg w cmd = true ->
   C04.step_spec cfg w (view_of_model cfg w e cmd um) = true.
-Proof. exact C04_model_proof. Qed.
+Proof. exact C04_model_any_env. Qed.
 Print Assumptions C04_model_partial.
